@@ -1,7 +1,8 @@
 """C10 — decoding accepts only the canonical encoding."""
 from decfam import *  # noqa
 
-THEOREMS = []
+THEOREMS = ["C10_uint_canonical", "C10_bool_canonical", "C10_bool_rejects_other"]
+PARTIAL = ["C10_canonical / C10_language are proved for uintN and boolean (scoped stream decoding); for composite kinds the accepted language of the implementation is compared with the model on the same input space as C09 and, model-free, every accepted input must re-encode to itself"]
 COQ_IMPORTS = ["RM.Types", "RMR.RunV"]
 COQ_FN = "RunV.run_dec"
 COQ_CASE_TY = "(ty * bytes)"
